@@ -22,11 +22,11 @@ import (
 // boundary literal x every sort direction x a few pages.
 
 var qBoundary = map[string][]rm.Val{
-	"s": {rm.Null, rm.Str(""), rm.Str("a"), rm.Str("B"), rm.Str("ab"), rm.Str("é"), rm.Str("aaaaaaaaaaaaaaaaa"), rm.Str("aaaaaaaaaaaaaaaab")},          // the last two: 17 bytes, equal in the first 16
-	"i": {rm.Null, rm.Int(-5), rm.Int(4), rm.Int(math.MinInt64), rm.Int(math.MaxInt64), rm.Int(math.MaxInt64 - 1), rm.Int(1 << 53), rm.Int(1<<53 + 1)}, // the last three: distinct integers that coincide as float64
-	"f": {rm.Null, rm.Flt(-4.5), rm.Flt(4.5), rm.Flt(5e-324), rm.Flt(math.MaxFloat64)},
+	"s":  {rm.Null, rm.Str(""), rm.Str("a"), rm.Str("B"), rm.Str("ab"), rm.Str("é"), rm.Str("aaaaaaaaaaaaaaaaa"), rm.Str("aaaaaaaaaaaaaaaab")},          // the last two: 17 bytes, equal in the first 16
+	"i":  {rm.Null, rm.Int(-5), rm.Int(4), rm.Int(math.MinInt64), rm.Int(math.MaxInt64), rm.Int(math.MaxInt64 - 1), rm.Int(1 << 53), rm.Int(1<<53 + 1)}, // the last three: distinct integers that coincide as float64
+	"f":  {rm.Null, rm.Flt(-4.5), rm.Flt(4.5), rm.Flt(5e-324), rm.Flt(math.MaxFloat64)},
 	"nn": {rm.Null, rm.Int(-5), rm.Int(4), rm.Int(math.MinInt32), rm.Int(math.MaxInt32)}, // the int32-typed field (bolt store only)
-	"t": {rm.Null, rm.Time(time.Date(1020, 3, 4, 5, 6, 7, 0, time.UTC)), rm.Time(qT0), rm.Time(qT0.Add(time.Nanosecond)), rm.Time(time.Date(2321, 3, 4, 5, 6, 7, 0, time.UTC))},
+	"t":  {rm.Null, rm.Time(time.Date(1020, 3, 4, 5, 6, 7, 0, time.UTC)), rm.Time(qT0), rm.Time(qT0.Add(time.Nanosecond)), rm.Time(time.Date(2321, 3, 4, 5, 6, 7, 0, time.UTC))},
 }
 
 type boundaryQuery struct {
